@@ -308,6 +308,10 @@ func (c *Ctx) Explore(o ExploreOpts) {
 		x := vsched.Run(vsched.Config{Prefix: c.Spec.Replay, Horizon: c.Spec.Horizon, AtomicFilter: o.Atomic, Trace: true}, o.Body)
 		c.Res.Execs++
 		c.Res.Transitions += x.Steps
+		if n := vsched.RaceErrors(); n > c.raceSeen {
+			c.Res.RaceExecs = append(c.Res.RaceExecs, RaceExec{Case: o.Name, Choices: x.Choices(), N: n - c.raceSeen})
+			c.raceSeen = n
+		}
 		c.Res.Samples = append(c.Res.Samples, map[string]any{"status": x.Status, "detail": x.Detail, "trace": x.Trace, "blocked": x.Blocked})
 		judge(x)
 		return
@@ -324,12 +328,15 @@ func (c *Ctx) Explore(o ExploreOpts) {
 	err := ex.Explore(func(cfg vsched.Config) *vsched.Exec {
 		cfg.Trace = first
 		first = false
-		return vsched.Run(cfg, o.Body)
-	}, func(x *vsched.Exec) bool {
+		x := vsched.Run(cfg, o.Body)
+		// attribute new race reports to the execution during which they appeared (every
+		// execution, also the re-runs that only regenerate children)
 		if n := vsched.RaceErrors(); n > c.raceSeen {
 			c.Res.RaceExecs = append(c.Res.RaceExecs, RaceExec{Case: o.Name, Choices: x.Choices(), N: n - c.raceSeen})
 			c.raceSeen = n
 		}
+		return x
+	}, func(x *vsched.Exec) bool {
 		if x.Trace != nil {
 			c.Sample(map[string]any{"scenario": o.Name, "default_schedule_trace": x.Trace, "status": x.Status})
 		}
